@@ -356,7 +356,7 @@ func c09Foreign(c *core.Ctx, r *core.Rng) {
 	c.Count("foreign." + role)
 	// the flag is per instance: writable Stacks held BY the read-only instance may legitimately be changed through
 	// another handle, so only the read-only instance itself is compared here (its record, its slots / expression by identity)
-	if d := Diff(s0, ro.take(), DiffOpts{Shallow: true}); d != "" {
+	if d := Diff(s0, ro.take(), DiffOpts{Shallow: true, Raw: true}); d != "" {
 		c.Violatef("changed-as-"+role+":"+cs.Method, desc, "%s on another instance changed the read-only %s (%s, %s): %s", cs.Method, roKind, role, formName, d)
 		return
 	}
@@ -441,7 +441,7 @@ func c09One(c *core.Ctx, seed uint64, isCond bool, seq []CallSpec) {
 	held := t.cd // a second handle of the same Condition (meaningful only for isCond)
 	heldSnap := func() *Snap { sn, _ := Take(held); return sn }
 	w0 := twin.take()
-	opts := DiffOpts{}
+	opts := DiffOpts{Raw: true}
 	replaced := false
 	roCleared := false
 	for si, cs := range seq {
